@@ -17,10 +17,12 @@ res = ''
 if os.path.exists(log):
     for l in open(log):
         if l.startswith('RESULT'): res = l.strip()
+m_ = re.search(r'(?is)(needs[^\n]*\n(?:.*\n){0,8})', notes)
+needs = (m_.group(1).strip()[:900] if m_ else notes[:700])
 files = sorted(set(re.findall(r'^\+\+\+ b/(\S+)', open(f"{dst}/patch.diff").read(), re.M)))
 meta = dict(
     property=pid, seed=int(k), files_changed=files,
-    needs_to_manifest=(re.search(r'(?is)(what (it|exactly)? ?needs[^\n]*\n(?:.*\n){0,8})', notes).group(1).strip()[:900] if re.search(r'(?i)needs', notes) else notes[:600]),
+    needs_to_manifest=needs,
     confirmed=dict(how="tools/confirm_seed.sh in a scratch worktree (/tmp/seedcheck): demo on the clean tree, demo with the patch, existing tests of the touched crates with the patch",
                    result=res),
     checks_run=f"git -C /repo apply seeded/{pid}_{k}/patch.diff && ./check {pid} ; git -C /repo checkout -- .",
